@@ -158,9 +158,6 @@ func (c *c19CountW) Close() error { return c.lg.Close() }
 // i.e. none of them is in the middle of a write.
 func c19WorkersParked() bool {
 	for _, g := range strings.Split(kit.Stacks(), "\n\n") {
-		if strings.Contains(g, "(*RotateLogger).startWorker") && !strings.HasPrefix(g, "goroutine ") {
-			continue
-		}
 		if strings.Contains(g, "(*RotateLogger).startWorker.func") {
 			head := g[:strings.IndexByte(g+"\n", '\n')]
 			if !strings.Contains(head, "[select") {
@@ -183,14 +180,21 @@ func (f *c19Fam) sync() (raced bool, err error) {
 	r := f.rule
 	start := time.Now()
 	lastCalls, lastChange := r.calls.Load(), start
+	// r.markers = ShallRotate calls so far that were not for a counted record (barrier records, or
+	// minus the records the logger consumed without asking)
 	for r.calls.Load() < f.sent.Load()+r.markers { // everything queued so far has passed ShallRotate
 		now := time.Now()
 		if c := r.calls.Load(); c != lastCalls {
 			lastCalls, lastChange = c, now
 		}
 		if now.Sub(lastChange) > 2*time.Millisecond && len(f.lg.channel) == 0 && c19WorkersParked() && len(f.lg.channel) == 0 {
+			if r.calls.Load() >= f.sent.Load()+r.markers {
+				break // it arrived meanwhile
+			}
 			// fewer ShallRotate calls than records, yet nothing is queued and nobody is writing
-			r.markers = r.calls.Load() - f.sent.Load()
+			if kit.Env("VERIF_DEBUG", "") != "" {
+				fmt.Printf("RESYNC fam=%q calls=%d sent=%d markers=%d\n", f.name, r.calls.Load(), f.sent.Load(), r.markers)
+			}
 			c19Resyncs.Add(1)
 			break
 		}
@@ -205,18 +209,22 @@ func (f *c19Fam) sync() (raced bool, err error) {
 	default:
 	}
 	before := f.sent.Load()
-	r.markers++
-	r.markerAt.Store(before + r.markers)
+	r.markerAt.Store(r.calls.Load() + 1) // the writer is idle: the next record it asks about is the barrier record
 	if _, err := f.lg.Write([]byte{}); err != nil {
 		return false, fmt.Errorf("barrier record refused: %v", err)
 	}
 	select {
 	case <-r.sig:
 	case <-time.After(30 * time.Second):
-		return false, fmt.Errorf("writer goroutine of %q did not reach the barrier record\n%s", f.name, kit.Stacks())
+		if !(len(f.lg.channel) == 0 && c19WorkersParked()) {
+			return false, fmt.Errorf("writer goroutine of %q did not reach the barrier record\n%s", f.name, kit.Stacks())
+		}
+		c19Resyncs.Add(1)
 	}
+	after := f.sent.Load()
+	r.markers = r.calls.Load() - after
 	// a record of somebody else (public family: the logger's diagnostics) slipped in between: again
-	return f.sent.Load() != before, nil
+	return after != before, nil
 }
 
 type c19World struct {
@@ -447,7 +455,14 @@ func (w *c19World) observe(f *c19Fam) (kit.M, error) {
 
 // barrier: every logger has processed everything queued and no post-rotation goroutine runs.
 func (w *c19World) barrier() error {
-	for round := 0; round < 8; round++ {
+	total := func() (n int64) {
+		for _, f := range w.fams {
+			n += f.sent.Load()
+		}
+		return
+	}
+	for round := 0; round < 12; round++ {
+		before := total()
 		for _, f := range w.fams {
 			for again := true; again; {
 				var err error
@@ -456,7 +471,9 @@ func (w *c19World) barrier() error {
 				}
 			}
 		}
-		if runtime.NumGoroutine() <= w.base {
+		// quiescent: no post-rotation goroutine is running and (public family) none of them handed
+		// a diagnostic record to a writer that had already been flushed in this round
+		if runtime.NumGoroutine() <= w.base && total() == before {
 			return nil
 		}
 		// a post-rotation goroutine (compress, clean-up) is running; in the public family it may log
